@@ -18,13 +18,16 @@ LEVEL_TEXT = ("Bounded twin contract on the real Pipeline: a cached pipeline (ev
               "repeated root-only call must not re-execute a cached function. The caching path goes through "
               "to_hashable / networkx / cloudpickle and is decided on the bounded rung. Proved part (pyvc): "
               "compute_cache_key (the key is the output name plus the to_hashable image of exactly the root-argument "
-              "items, in sorted order; to_hashable is an assumed contract, checked under C15). Category 'other' = that "
-              "leaf contract + bounded twin checking; it is not a proof of C09.")
+              "items, in sorted order; to_hashable is an assumed contract, checked under C15) and "
+              "get_result_from_cache (hit iff the key is not None and resident; on a hit the stored value is entered "
+              "into the results exactly like a computed one and the call returns at once unless full_output; on a miss "
+              "nothing changes; the cache's __contains__/get are assumed, the containers are C14). Category 'other' = "
+              "those contracts + bounded twin checking; it is not a proof of C09.")
 LEVEL_NOTE = ("Bounds: DAGs of 1..4 functions, histories of length <=4 (quick) / <=6, values from 2 variants per "
               "argument, caches simple/lru/hybrid/disk (non-shared in-process). Trusted: reference twin = the same "
               "pipeline without caching.")
 TECHNIQUE = ("bounded twin (relational) contract checking over call/mutation histories; leaf compute_cache_key "
-             "discharged by z3")
+             "and get_result_from_cache discharged by z3")
 EXPLANATION = LEVEL_TEXT
 RULE = ("random DAG x cache type x cached subset x random history; distinct = distinct (DAG, cache, subset, history); "
         "non-trivial = the history repeats an output with different arguments or contains a mutation")
@@ -35,8 +38,9 @@ CACHES = ("simple", "lru", "hybrid", "disk")
 
 
 def registry():
-    from contracts import misc
-    return {**{c.short: c for c in misc.ALL}, **{c.name: c for c in misc.ALL}}
+    from contracts import misc, pipeline_call
+    allc = misc.ALL + pipeline_call.ALL
+    return {**{c.short: c for c in allc}, **{c.name: c for c in allc}, **pipeline_call.registry_entries()}
 
 
 def _cck_gen(rng, tier):
@@ -50,7 +54,10 @@ def _cck_gen(rng, tier):
 def proof_items():
     from contracts import misc
     from vf.driver import ProofItem
-    return [ProofItem(misc.compute_cache_key, gen=_cck_gen)]
+    from contracts import pipeline_call
+    return [ProofItem(misc.compute_cache_key, gen=_cck_gen),
+            # a resident entry is used instead of executing: entered like a computed result, marked as "from cache"
+            ProofItem(pipeline_call.get_result_from_cache, gen=pipeline_call.grc_gen)]
 
 
 def _history(rng, d, length):
